@@ -13,6 +13,10 @@ def ev(e, **kw):
     return d
 
 
+_ULR = {"kind": "typed", "lib": "etsi_3gpp_s6a", "cls": "UpdateLocationRequest", "extras": [], "omit": None,
+        "args": [["destination_realm", {"t": "b", "x": "726561"}], ["user_name", {"t": "b", "x": "303031"}], ["visited_plmn_id", {"t": "b", "x": "00f110"}]]}
+_ULA = {"kind": "typed", "lib": "etsi_3gpp_s6a", "cls": "UpdateLocationAnswer", "extras": [], "omit": None, "args": []}
+
 REG = {
     "C18": {
         "even-length-string": {"kind": "string", "s": "12"},
@@ -97,6 +101,10 @@ REG = {
                                          ["visited_plmn_id", {"t": "b", "x": "00f110"}]]},
                         "ans": {"kind": "typed", "lib": "etsi_3gpp_s6a", "cls": "UpdateLocationAnswer", "extras": [], "omit": None, "args": []},
                         "rc": {"mode": "result", "code": 5012, "vendor": 10415}, "via": "route", "req_form": "decoded", "ids": {"hbh": 7, "e2e": 9}},
+        "handler-set-e-bit": {"req": _ULR, "ans": _ULA, "rc": {"mode": "result", "code": 5001, "vendor": 10415}, "via": "route", "req_form": "built",
+                              "ids": {"hbh": 7, "e2e": 9}, "pre": {"kind": "e-set"}},
+        "reused-answer-back-to-success": {"req": _ULR, "ans": _ULA, "rc": {"mode": "result", "code": 2001, "vendor": 10415}, "via": "decorate",
+                                          "req_form": "built", "ids": {"hbh": 7, "e2e": 9}, "pre": {"kind": "reused", "code0": 5001}},
     },
 }
 
